@@ -153,6 +153,34 @@ def eval_case(args):
                 mon.append(('C01-roundtrip', f'{s["name"]}.{d}: encode_message_data differs from serialize()', None))
     except Exception as e:  # noqa: BLE001
         mon.append(('C01-roundtrip', f'{s["name"]}.{d}: connection-level codec raised {type(e).__name__}: {e}', None))
+    # the same message OBJECT sent, changed in place and sent again (messages are mutable dataclasses; the library itself
+    # re-sends objects, e.g. a search request to every child): the second encoding is that of the new contents
+    try:
+        import copy
+        import dataclasses
+        other_vals = wc.gen_message(random.Random(common.sha([idx, wc.show_message(vals)])), s)
+        other = wc.build(m, p, s, other_vals)
+        clsname, meth = wc.FAMILY_DISPATCH[(fam, d)]
+        for obf in (False, True):
+            decodable_by_connection = fam != 'server' or d == 'response'      # a client connection parses server RESPONSES
+            if obf and not decodable_by_connection:
+                continue
+            conn = _connection(fam, d, obf)
+            mut = wc.build(m, p, s, vals)
+            conn.encode_message_data(mut)
+            for f in dataclasses.fields(mut):
+                setattr(mut, f.name, copy.deepcopy(getattr(other, f.name)))
+            wire2 = conn.encode_message_data(mut)
+            back4 = (_connection(fam, d, obf).decode_message_data(wire2) if decodable_by_connection
+                     else getattr(getattr(m, clsname), meth)(wire2))
+            if back4 != other:
+                mon.append(('C01-roundtrip', f'{s["name"]}.{d}: the same message object sent, changed in place and sent again '
+                            f'(obfuscated={obf}) goes out with other contents than it holds', repr(back4)[:300]))
+                break
+        if mut.serialize() != other.serialize():
+            mon.append(('C01-roundtrip', f'{s["name"]}.{d}: serialize() of an object changed in place differs from a fresh one', None))
+    except Exception as e:  # noqa: BLE001
+        mon.append(('C01-roundtrip', f'{s["name"]}.{d}: send / change / send again raised {type(e).__name__}: {e}', None))
     out['mon'] = mon
     # decode direction of the correspondence
     out['dec'] = wc.impl_decode(m, table, fam, d, data)
@@ -160,16 +188,9 @@ def eval_case(args):
     return out
 
 
-def eval_big(args):
-    """One message with a very long string somewhere inside it (wherever the class has a string): real code only."""
-    table, idx, n, sub_seed = args
-    m, p, _o = _mods()
-    s = table[idx]
-    rng = random.Random(sub_seed)
-    vals = wc.gen_message(rng, s)
-
+def _plant_long_string(vals: list, n: int) -> bool:
+    """replace the first string leaf of the generated value by a string of n characters (in place); False = none found"""
     def plant(v):
-        """replace the first string leaf by the long one; returns (new value, done)"""
         if isinstance(v, tuple) and v and v[0] == 'S':
             return ('S', 'x' * n), True
         if isinstance(v, tuple) and v and v[0] == 'A':
@@ -189,13 +210,121 @@ def eval_big(args):
                     return ('R', v[1], items), True
             return v, False
         return v, False
-    done = False
     for k, v in enumerate(vals):
         nv, done = plant(v)
         if done:
             vals[k] = nv
-            break
-    if not done:
+            return True
+    return False
+
+
+def _connection(fam: str, d: str, obf: bool, network=None):
+    """the real connection object messages of this family / direction travel on (None: we never send or receive them)"""
+    from aioslsk.network.connection import PeerConnection, ServerConnection, PeerConnectionState
+    network = network if network is not None else Mock()
+    if fam == 'server':
+        return ServerConnection('h', 1, network, obfuscated=obf)
+    conn = PeerConnection('h', 1, network, obfuscated=obf,
+                          connection_type={'peer': 'P', 'distributed': 'D', 'peerinit': 'P'}[fam])
+    conn.connection_state = (PeerConnectionState.AWAITING_INIT if fam == 'peerinit' else PeerConnectionState.ESTABLISHED)
+    return conn
+
+
+def eval_wire(args):
+    """Several messages handed to ONE connection at the same time (send_message under gather / queue_messages), the first
+    of them large, while the transport exerts back-pressure (drain() really suspends): what the far end reads must be
+    exactly those messages, each frame in one piece. Real sender, real receiver; only the socket is the in-memory one."""
+    import asyncio
+    from unittest.mock import AsyncMock
+    from vlib import fakenet, simloop
+    from aioslsk.network.connection import ConnectionState
+    table, fam, d, picks, n, obf, mode, sub_seed = args
+    m, p, _o = _mods()
+    rng = random.Random(sub_seed)
+    objs = []
+    for k, idx in enumerate(picks):
+        vals = wc.gen_message(rng, table[idx])
+        if k == 0 and not _plant_long_string(vals, n):
+            return {'skip': 'no-string-leaf'}
+        try:
+            objs.append(wc.build(m, p, table[idx], vals))
+        except Exception as e:  # noqa: BLE001
+            return {'skip': f'build {type(e).__name__}'}
+    out = {'mon': [], 'sent': len(objs)}
+
+    async def main(loop):
+        far = asyncio.StreamReader(limit=1 << 30)
+        net = type('N', (), {'closed_count': 0})()
+        w = fakenet.FakeWriter(net, asyncio.StreamReader(), far, ('h', 1), ('me', 2))
+        w.drain_gate = asyncio.Event()
+        snd = _connection(fam, d, obf, AsyncMock())
+        snd._writer = w
+        snd.state = ConnectionState.CONNECTED
+        if mode == 'gather':
+            tasks = [loop.create_task(snd.send_message(o)) for o in objs]
+        else:
+            tasks = snd.queue_messages(*objs)
+        for _ in range(6):                       # the transport lets go a little at a time
+            await simloop.settle()
+            w.drain_gate.set()
+            await simloop.settle()
+            if all(t.done() for t in tasks):
+                break
+            w.drain_gate = asyncio.Event()
+        w.drain_gate.set()
+        await asyncio.gather(*tasks, return_exceptions=True)
+        for t in tasks:
+            if t.exception() is not None:
+                out['mon'].append(('C01-roundtrip', f'sending raised {type(t.exception()).__name__}: {t.exception()}'))
+        far.feed_eof()
+        rcv = _connection(fam, d, obf, AsyncMock())
+        rcv._reader = far
+        rcv.state = ConnectionState.CONNECTED
+        got = []
+        try:
+            clsname, meth = wc.FAMILY_DISPATCH[(fam, d)]
+            for _ in range(len(objs) + 3):
+                if fam == 'server':          # a client connection parses server RESPONSES: take the frame, parse as request
+                    raw = await rcv.receive_message()
+                    o = None if not raw else getattr(getattr(m, clsname), meth)(raw)
+                else:
+                    o = await rcv.receive_message_object()
+                if o is None:
+                    break
+                got.append(o)
+        except Exception as e:  # noqa: BLE001
+            out['recv_exc'] = f'{type(e).__name__}: {e}'
+        left = list(objs)
+        for g in got:
+            if g in left:
+                left.remove(g)
+        out['got'] = len(got)
+        out['missing'] = [type(x).__qualname__ for x in left]
+        out['bytes'] = len(w.sent)
+
+    try:
+        simloop.run(main, wall_timeout=60)
+    except Exception as e:  # noqa: BLE001
+        out['exc'] = f'{type(e).__name__}: {e}'
+        return out
+    if out.get('missing') or out.get('got') != len(objs) or out.get('recv_exc'):
+        out['mon'].append(('C01-roundtrip',
+                           f'{len(objs)} messages handed to one connection at the same time ({mode}, obfuscated={obf}, the first '
+                           f'with a string of {n} characters) under back-pressure: the far end read {out.get("got")} messages, '
+                           f'{len(out.get("missing") or [])} of the sent ones are missing or differ'
+                           + (f'; its reader raised {out["recv_exc"]}' if out.get('recv_exc') else '')
+                           + ' (frames of different messages are mixed on the wire)'))
+    return out
+
+
+def eval_big(args):
+    """One message with a very long string somewhere inside it (wherever the class has a string): real code only."""
+    table, idx, n, sub_seed = args
+    m, p, _o = _mods()
+    s = table[idx]
+    rng = random.Random(sub_seed)
+    vals = wc.gen_message(rng, s)
+    if not _plant_long_string(vals, n):
         return {'skip': 'no-string-leaf'}
     mon = []
     try:
@@ -235,7 +364,11 @@ class C01(Property):
     driver_module = 'AioslskVerif.Driver.C01'
     rule = ('for every message class of the regenerated schema table, type-directed in-domain values (boundary '
             'biased integers, ASCII/2-3-4-byte UTF-8/NUL strings, arrays of 0/1/many, every guard value, every '
-            'present-prefix of the trailing optionals) + obfuscation cases (random keys x lengths 0..300); '
+            'present-prefix of the trailing optionals) + obfuscation cases (random keys x lengths 0..300) + very long strings '
+            '(2^20 .. 2^28+1 characters) + per message: the same object sent, changed in place to a second in-domain value and '
+            'sent again + wire level (monitor only): 2..4 messages handed to one real connection at once (gather / '
+            'queue_messages), the first 70 kB..1 MB, over an in-memory socket whose drain() really suspends, read back by a '
+            'real connection; '
             'non-trivial = message with at least one non-empty string/array or a guarded/optional field; '
             'distinct = distinct (class, canonical value)')
     assumptions = [
@@ -396,6 +529,36 @@ class C01(Property):
             res.nontrivial_keys.add(common.sha(case))
             for sig, what in o.get('mon', []):
                 res.violations.append(Violation(sig, what, case))
+        # wire level: several messages handed to one connection at once, the first one large, under back-pressure
+        wcases = []
+        n_wire = (24 if tier == 'quick' else 300) * widen
+        by_fd = {}
+        for i, sch in enumerate(gen_table):
+            if not sch.get('compress') and not (sch['family'] == 'server' and sch['dir'] == 'response'):
+                by_fd.setdefault((sch['family'], sch['dir']), []).append(i)
+        sendable = [k for k in by_fd if k[0] != 'peerinit' and len(by_fd[k]) >= 3]
+        for _ in range(n_wire):
+            fam, d = rng.choice(sendable)
+            picks = [rng.choice(by_fd[(fam, d)]) for _ in range(rng.choice([2, 3, 4]))]
+            wcases.append((gen_table, fam, d, picks, rng.choice([70_000, 200_000, 1_000_000]),
+                           rng.random() < 0.4 and fam != 'server',       # the server connection is never obfuscated
+                           rng.choice(['gather', 'queue']), rng.randrange(1 << 30)))
+        wouts = common.parallel_map(eval_wire, wcases, workers=8, chunksize=2)
+        for (_t, fam, d, picks, n, obf, mode, sd), o in zip(wcases, wouts):
+            res.evaluations += 1
+            case = {'kind': 'wire', 'family': fam, 'dir': d, 'picks': picks, 'string_length': n, 'obf': obf, 'mode': mode,
+                    'sub_seed': sd, 'classes': [f'{gen_table[i]["name"]}.{gen_table[i]["dir"]}' for i in picks]}
+            if o.get('skip'):
+                res.count('wire-skipped:' + o['skip'].split(' ')[0])
+                continue
+            res.count('wire:' + mode + (':obfuscated' if obf else ':plain'))
+            res.nontrivial_keys.add(common.sha(case))
+            if o.get('exc'):
+                res.violations.append(Violation('C01-wire-impl-error', o['exc'], case))
+                continue
+            for sig, what in o.get('mon', []):
+                res.violations.append(Violation(sig, what, case, observed={k: o.get(k) for k in ('got', 'missing', 'bytes')},
+                                                required='every message arrives once, equal to what was sent'))
         # obfuscation
         ocases = []
         n_obf = (1500 if tier == 'quick' else 20000) * widen
@@ -435,6 +598,10 @@ class C01(Property):
             e, d = eval_obf((key, data))
             return [] if d == wc.hexs(data) else [Violation('C01-obfuscation-roundtrip', 'decode(encode(x)) != x', case, observed=d)]
         idx = next((i for i, s in enumerate(table) if f'{s["name"]}.{s["dir"]}' == case['class']), case['idx'])
+        if case.get('kind') == 'wire':
+            o = eval_wire((table, case['family'], case['dir'], case['picks'], case['string_length'], case['obf'], case['mode'],
+                           case['sub_seed']))
+            return [Violation(sig, what, case) for sig, what in o.get('mon', [])]
         if case.get('kind') == 'big':
             o = eval_big((table, idx, case['string_length'], case['sub_seed']))
             return [Violation(sig, what, case) for sig, what in o.get('mon', [])]
